@@ -82,7 +82,7 @@ PROPS = {
         "assumptions": COMMON_ASSUME,
     },
     "C07": {
-        "rules": ["R-STATE", "R-INITCOVER", "R-EXTENT", "R-KILLUSE", "R-DANGLING", "R-ALPHAGUARD", "R-DEDUP", "R-IDGUARD", "R-SHIFT", "R-CLAMP", "R-ZEROFILL", "R-GROW", "R-SLACK", "R-ALLOCFORM", "R-LOCKSET", "R-BYTEINDEX"],
+        "rules": ["R-STATE", "R-INITCOVER", "R-EXTENT", "R-KILLUSE", "R-DANGLING", "R-ALPHAGUARD", "R-DEDUP", "R-IDGUARD", "R-SHIFT", "R-CLAMP", "R-ZEROFILL", "R-GROW", "R-SLACK", "R-ALLOCFORM", "R-LOCKSET", "R-BYTEINDEX", "R-REFCOUNT"],
         "explanation": "Structural preconditions of memory safety, each a necessary condition with confirmed instances: no operation consults state the "
                        "creation path never set, saved extents equal allocated extents, nothing reachable from a dictionary is freed by an operation or "
                        "left dangling by a loader, pattern bytes are range-checked before indexing, duplicate iterators have their sentinel, ids are "
@@ -92,7 +92,8 @@ PROPS = {
                     "index guards: alphabet, id range, sentinel (R-ALPHAGUARD, R-IDGUARD, R-DEDUP)", "no undefined shift (R-SHIFT)", "clamped bucket size (R-CLAMP)",
                     "growth guards re-test after growing (R-GROW, loop form)", "PFC guard slack covers the largest appended extent for every length / shared prefix (R-SLACK)", "release form matches allocation form for every pointer field (R-ALLOCFORM)",
                     "the shared parts vector that the producer grows is indexed by workers only under its mutex: no access to a reallocated buffer (R-LOCKSET)",
-                    "tables indexed by an arbitrary byte value have >= 256 entries on every path that creates them, loaders included (R-BYTEINDEX)"],
+                    "tables indexed by an arbitrary byte value have >= 256 entries on every path that creates them, loaders included (R-BYTEINDEX)",
+                    "the RRR offset table shared through a static pointer is acquired once by every constructor and released with the pointer reset (R-REFCOUNT)"],
         "not_decided": ["all index arithmetic over decoded data (bucket scans, chunk decoding with b_remain, expandRule recursion depth, scratch buffers sized "
                         "from maxlength/maxcomplength), buffer growth estimates, suffix sorting on tiny inputs, termination: a pass means the structural "
                         "preconditions hold, not that the library is memory safe"],
@@ -144,7 +145,7 @@ PROPS = {
         "assumptions": COMMON_ASSUME,
     },
     "C19": {
-        "rules": ["R-MIRROR", "R-EXTENT", "R-DISPATCH", "R-SAVEPURE", "R-CONSTPURE", "R-NARROW"],
+        "rules": ["R-MIRROR", "R-EXTENT", "R-DISPATCH", "R-SAVEPURE", "R-CONSTPURE", "R-NARROW", "R-REFCOUNT"],
         "explanation": "ONLY the last clause of the property (`the answers are unchanged after save/load`) is addressed, and only structurally: "
                        "writer/reader agreement, allocation extents, tag dispatch, save purity and element-to-field restoration for the bundled classes "
                        "the dictionaries persist and for the variants named in the property (BitSequenceRG/RRR/SDArray/DArray/375, WaveletTree, "
@@ -153,7 +154,8 @@ PROPS = {
         "decided": ["save/load element-by-element agreement of every bundled class in the cone (R-MIRROR)", "allocation = saved extent (R-EXTENT)",
                     "family dispatchers have an arm for every persisted class and the right tag (R-DISPATCH)", "save writes nothing but the stream (R-SAVEPURE)",
                     "const query methods of the bundled structures write no object state and no global, so an answer cannot depend on earlier queries (R-CONSTPURE)",
-                    "no save writes a data member through a narrower scalar type than the member has (R-NARROW)"],
+                    "no save writes a data member through a narrower scalar type than the member has (R-NARROW)",
+                    "the RRR offset table shared through a static pointer is acquired once by every constructor and released with the pointer reset (R-REFCOUNT)"],
         "not_decided": ["access/rank/select agree with their plain definitions for every bit vector, sampling parameter and alphabet: the core of the property (value-level)",
                         "state recomputed at load (RRR sampling, RG rank directory) equals the built state"],
         "assumptions": COMMON_ASSUME,
@@ -263,7 +265,7 @@ PROPS = {
         "assumptions": COMMON_ASSUME + ["no inline assembly or atomics in the closure"],
     },
     "C14": {
-        "rules": ["R-QUERYPURE", "R-PATTERN", "R-KILLUSE"],
+        "rules": ["R-QUERYPURE", "R-PATTERN", "R-KILLUSE", "R-REFCOUNT"],
         "explanation": "The same effect analysis applied to the 9 query operations, getSize, numElements, maxLength of all 13 kinds and to "
                        "hasNext/next of every iterator class: no store or free reaches dictionary state, a global (other than the standard "
                        "output streams) or memory an iterator merely borrows; every store through a query's pattern pointer is undone on "
@@ -271,7 +273,8 @@ PROPS = {
         "decided": ["queries write no dictionary field, sub-object, or global (R-QUERYPURE)",
                     "iterator steps write only their own fields and owned buffers, never borrowed dictionary storage (R-QUERYPURE)",
                     "stores through the pattern pointer are restored on all exits (R-PATTERN)",
-                    "queries free nothing reachable from the dictionary (R-KILLUSE)"],
+                    "queries free nothing reachable from the dictionary (R-KILLUSE)",
+                    "the RRR offset table shared through a static pointer is acquired once by every constructor and released with the pointer reset (R-REFCOUNT)"],
         "not_decided": ["equality of answers across histories is inferred from absence of writable shared state, not observed"],
         "assumptions": COMMON_ASSUME + ["mod/ref by pointer root without full alias analysis (conservative attribution to the field a pointer was loaded from)"],
     },
